@@ -138,6 +138,22 @@ Section PencilModel.
     let lhs := acc_sparse X L mzero in
     {| p_lhs := sym_from_upper lhs; p_rhs := sym_from_upper rhs |}.
 
+  (* NOT the code: the textbook ONE-PASS rewrite of the LLTSA right-hand side (Wave 3, seeded change C10_3)
+       for iter: mean += x;  rhs.selfadjointView<Upper>().rankUpdate(x);          (uncentred x)
+       mean /= (end - begin);
+       rhs.selfadjointView<Upper>().rankUpdate(mean, -(end - begin));              sum x x^T - N m m^T
+     with the left-hand side still accumulated from x - mean.  Over an exact field it returns the same
+     tables as lltsa_centred (Pencil_Proof_OnePass.lltsa_rhs_one_pass_equal): the two formulas differ ONLY
+     in binary64 rounding (error ~ eps * (offset/spread)^2 against eps * offset/spread), which no exact
+     model can see; the large-offset cases of the exact stream (inputs on which the centred accumulation is
+     exact in binary64 while the expanded sums exceed 2^53) and the tolerance stream decide it. *)
+  Definition lltsa_one_pass (X : mat F) (N : nat) (W : sparse) : pencil :=
+    let m := compute_mean0 X N in
+    let Xc := centred X N in
+    let rhs := rank_update_upper (- of_nat N) m (acc_samples X N (fun _ => 1) mzero) in
+    let lhs := acc_sparse Xc W mzero in
+    {| p_lhs := sym_from_upper lhs; p_rhs := sym_from_upper rhs |}.
+
   (* ------------------------- the consumer -------------------------
      generalized_eigendecomposition_impl_dense: DenseMatrix dense_lhs = lhs, dense_rhs = rhs;
      Eigen::GeneralizedSelfAdjointEigenSolver<DenseMatrix> solver(dense_lhs, dense_rhs);
